@@ -178,7 +178,7 @@ pub struct C11 {
     texts: Space<(usize, String)>,
     digits_max: usize,
     digit_cases: u64,
-    exprs: Vec<(&'static str, &'static str)>,
+    exprs: Vec<(String, String)>,
 }
 
 fn digit_space_size(max: usize) -> u64 {
@@ -217,7 +217,8 @@ fn build(tier: Tier) -> Box<dyn Check> {
         texts,
         digits_max,
         digit_cases: digit_space_size(digits_max),
-        exprs: vec![
+        exprs: {
+            let mut e: Vec<(String, String)> = [
             ("x is nothing\nsay x\n", "null\n"),
             ("x is nowhere\nsay x\n", "null\n"),
             ("x is true\nsay x\n", "true\n"),
@@ -237,7 +238,18 @@ fn build(tier: Tier) -> Box<dyn Check> {
             ("x is true and false\nsay x\n", "false\n"),
             ("rock x like a rolling stone\nsay x at 0\n", "175\n"),
             ("x is a lovestruck ladykiller\nsay x\n", "100\n"),
-        ],
+            ]
+            .iter()
+            .map(|(a, b): &(&str, &str)| (a.to_string(), b.to_string()))
+            .collect();
+            // a right-hand side that starts with a number literal of any size is an ordinary expression
+            for n in crate::refmodel::grammar::numerals() {
+                e.push((format!("x is {}\nput {} into y\nsay x is y\n", n, n), "true\n".to_string()));
+                e.push((format!("x is -{}\nput -{} into y\nsay x is y\n", n, n), "true\n".to_string()));
+                e.push((format!("rock x with {}\nput {} into y\nsay x at 0 is y\n", n, n), "true\n".to_string()));
+            }
+            e
+        },
     })
 }
 
@@ -390,7 +402,8 @@ impl Check for C11 {
                 }
             }
             4 => {
-                let (text, want) = self.exprs[idx as usize];
+                let (text, want) = &self.exprs[idx as usize];
+                let (text, want) = (text.as_str(), want.as_str());
                 ctx.case_text(text);
                 ctx.nontrivial();
                 let r = subject::exec_text(text, b"");
